@@ -77,7 +77,16 @@ def run_groups(groups, proj=proj_all, stats=None, model=True, skip_spins=True):
                 r["model"] = observe.outcome_from_model(txt, r["dumper"])
                 r["flags"] = observe.MODEL_FLAGS.get(r["id"])
             r["agree"] = True if r["real"] is None else proj(r["model"]) == proj(r["real"])
+            if not r["agree"] and _spun(r["real"]) and not _spun(r["model"]):
+                # the implementation was cut off but the model terminates: give the real parser a generous budget before believing it
+                r["real"] = observe.run_real(r["root"], r["dumper"], r["inp"], r["mode"], r["entry"], timeout=8.0)
+                r["agree"] = proj(r["model"]) == proj(r["real"])
+                stats["retried_after_cutoff"] = stats.get("retried_after_cutoff", 0) + 1
     return recs
+
+
+def _spun(o):
+    return o is not None and (o == ("div",) or (o[0] == "scan" and o[2] == "div"))
 
 
 def kind_of(o):
